@@ -10,6 +10,7 @@ From PV Require Import Extract.RunC06.
 From PV Require Import Extract.RunC20.
 From PV Require Import Extract.RunC15.
 From PV Require Import Extract.RunC18.
+From PV Require Import Extract.RunC11.
 From PV Require Import Extract.RunC16.
 From PV Require Import Extract.RunC14.
 From PV Require Import Extract.RunC07.
@@ -120,6 +121,9 @@ Definition run (cmd : N) (arg : sx) : sx :=
   | 71 => run_c07_sort arg
   | 180 => run_c18_parse arg
   | 181 => run_c18_checks arg
+  | 110 => run_c11_parse arg
+  | 111 => run_c11_spans arg
+  | 112 => run_c11_cover arg
   | 160 => run_c16_build arg
   | 161 => run_c16_unsorted arg
   | 162 => run_c16_keys arg
